@@ -16,6 +16,14 @@ open TdModel TdModel.Bin
 theorem getX_eq_spec (side : Side) : getX side = Spec.x side := by
   cases side <;> rfl
 
+/-- The Go function `getX`, translated to Lean on every run, agrees with the model's `getX` on the two
+`Side` constants (`Client = 0`, `Server = 1`, regenerated). -/
+theorem getX_translated_eq_model :
+    Facts.C06.getX (Facts.C06.sideClient : Nat) = (getX .client : Nat) ∧
+    Facts.C06.getX (Facts.C06.sideServer : Nat) = (getX .server : Nat) ∧
+    Facts.C06.getX (Facts.C06.sideClient : Nat) = 0 ∧ Facts.C06.getX (Facts.C06.sideServer : Nat) = 8 := by
+  decide
+
 /-- `crypto.MessageKey` = `substr (SHA256 (substr (auth_key, 88+x, 32) + plaintext + padding), 8, 16)`,
 for every auth key, plaintext and direction. -/
 theorem msgKey_impl_eq_spec (P : Prims) (hP : LawfulPrims P) (authKey plain : Bytes) (side : Side) :
